@@ -103,9 +103,9 @@ def check(ctx: Ctx) -> None:
     ctx.ob("C09.alphabet", "nonempty", not R.matches_empty(ce.parsed) and ce_first.intersect(cond_first).minus(cond_first).is_empty(), "CONDITION_EXPRESSION matches the empty string", file=GFILE)
     ctx.ob("C09.alphabet", "no-ignore", not ga.ignore, f"the AHB grammar ignores {ga.ignore}: whitespace would no longer belong to the condition parts", file=GFILE)
     # ---- selection sweep
-    ahbsweep.report(ctx, ("C09.select", "C09.bare", "C12.order"), FILE)
-    check_path(ctx, "C09.state", [f"{AHB_EVAL}.evaluate_ahb_expression_tree"], "the result of an AHB expression must not depend on earlier evaluations")
+    ctx.soft(lambda: ahbsweep.report(ctx, ("C09.select", "C09.bare", "C12.order"), FILE))
+    ctx.soft(lambda: check_path(ctx, "C09.state", [f"{AHB_EVAL}.evaluate_ahb_expression_tree"], "the result of an AHB expression must not depend on earlier evaluations"))
     from ..purity import check_models_and_transformers
 
-    check_models_and_transformers(ctx, "C09.state", "AHB expression evaluation must not depend on earlier evaluations")
+    ctx.soft(lambda: check_models_and_transformers(ctx, "C09.state", "AHB expression evaluation must not depend on earlier evaluations"))
     ctx.assume("L2/L3; the reference splitting of refsem.parse_ahb was validated against the grammar rules decided in C02.cfg")
